@@ -91,6 +91,8 @@ class Library:
             return RangeV(a, b, c)
 
         def mk_list(it, x=()):
+            if hasattr(x, 'm_copy_list'):
+                return x.m_copy_list(it)
             return VList(list(it.iterate(x)))
         B['list'] = TypeNative('list', mk_list, lambda v: isinstance(v, VList))
 
@@ -402,8 +404,16 @@ class Library:
         has_uuid = any(isinstance(p, UuidHex) for p in parts)
         has_label = any(isinstance(p, Sym) and p.is_label() for p in parts)
         if has_uuid:
-            # random suffix: an arbitrary label (over-approximation: may even collide; the code checks)
-            return Sym(it.ctx.fresh(LabelSort, 'uuidlabel'))
+            # random suffix: an arbitrary label — it may collide with a label already in the circuit (the code
+            # checks for that), but two uuid4 draws never coincide (standing assumption, DESIGN §9)
+            t = it.ctx.fresh(LabelSort, 'uuidlabel')
+            prev = getattr(it.ctx, 'uuid_labels', None)
+            if prev is None:
+                prev = it.ctx.uuid_labels = []
+            for p in prev:
+                it.ctx.assume(t != p)
+            prev.append(t)
+            return Sym(t)
         if any(isinstance(p, DigitStr) for p in parts) and all(isinstance(p, (str, DigitStr)) for p in parts):
             return NumberedLabel(tuple(parts)).to_sym(it)
         if has_label and not formatted:
